@@ -9,10 +9,19 @@ of the graph, with
     listed object must be a line OF THE GRAPH (one of Gfa.lines, connected to this Gfa, not virtual): a placeholder, a
     line which was removed or a copy which merely reads the same is not;
   * the answers which follow from them: dovetails_of_end / gaps_of_end / dovetails / gaps / containments / edges
-    (concatenations), neighbours_L / neighbours_R / neighbours_of_end / neighbours, containers, contained (as sets of
-    segments: the segment on the other side of each listed line) and the connectivity pair
-    (segment._connectivity(), the answer linear_path / is_cut_segment / remove_dead_ends consult; it has no public
-    alias): per end 0, 1 or 'M' by the NUMBER OF ATTACHMENTS listed in dovetails_L / dovetails_R;
+    (concatenations), neighbours_L / neighbours_R / neighbours_of_end / neighbours, containers, contained (the segment
+    on the other side of each listed line: first as sets of segments, then with multiplicities - ONE ENTRY FOR EACH LINE
+    of the collection(s) asked about; a line which is attached twice to the segment, a hairpin `A + A -` on one end or a
+    loop `A + A +` on both ends, is one line and gives one entry, two parallel lines to B give B twice) and the
+    connectivity pair (segment._connectivity(), the answer linear_path / is_cut_segment / remove_dead_ends consult; it
+    has no public alias): per end 0, 1 or 'M' by the NUMBER OF ATTACHMENTS listed in dovetails_L / dovetails_R;
+  * the connectivity answers of the graph, which count dovetails only and follow from the dovetail collections (the
+    expectation is a union-find over the lines the geometric rule calls dovetails; ends and orientations do not matter):
+    Gfa.connected_components() is the partition of the segments, segment_connected_component(s) the part of s (one
+    segment per graph), Gfa.is_cut_segment(s) (every segment, given as line or as name) is true iff the rest of the
+    component of s falls into two or more parts when s is taken away - in particular for a segment with a dead end
+    and several dovetails on the other end (connectivity (0, M) / (M, 0)) whose branches meet nowhere else.  (Not asked
+    again inside the take-out / put-back cycle of the single cases.);
   * per edge: is_dovetail / is_containment / is_internal against the geometric type, membership in Gfa.dovetails and
     Gfa.containments, from_end / to_end / other_end of dovetails, the container/contained roles of containments
     and other(segment) of every edge.
@@ -31,6 +40,12 @@ Cases:
   * multi (random): 2-6 parallel / mixed edges on 3 segments in a shuffled arrival order; about 40% are GFA1 graphs
     (L and C lines only; one third of the links are self-links), most of them with 1-2 paths over their links
     shuffled among the other lines;
+  * fork (random, about 15% of the multi / edit graphs, tag `fork`): on 3 or 4 segments (A-C / A-D), GFA1 (L, C) or
+    GFA2 (E, G); one segment (the hub) has all its dovetails on ONE end, 1-2 to each of 2-3 other segments, in any
+    orientation / either segment written first (GFA2: intervals chosen with the geometric rule); in 45% further
+    dovetails join some of the other segments to each other (the hub is then a cut segment only if a branch is left
+    out), in 10% a hairpin sits on the busy end of the hub or a loop on a branch; 0-2 lines which do not connect
+    (containment, internal alignment, gap) come on top.  Every 4th goes through the editing steps like any other graph;
   * edit (random, every 4th): a multi graph followed by 1-4 steps through the public editing routes, the whole
     comparison being repeated after every step: an edge instance is taken out (Gfa.rm or line.disconnect), its
     reference fields are changed (other intervals / orientations / segments; given as strings or as
@@ -40,7 +55,8 @@ Cases:
     segment is renamed.  The filing must always be that of the CURRENT text of the lines.
 
 NOT CHECKED:
-  * the order inside a collection; multiplicities in neighbours / containers / contained (only the set of segments);
+  * the order inside a collection and inside neighbours / containers / contained;
+  * is_cut_link, remove_dead_ends and the other consumers of the connectivity answers;
   * a step refused with a gfapy.Error ends the history (atomicity of refused steps is C08's business);
   * removal of segments (cascade: C03/C09), fragments and sets (C12/C13); paths are only there to make links arrive
     as placeholders: what the paths themselves refer to is C12's business; a path always walks a link of the graph,
@@ -71,17 +87,20 @@ RULE = ("exhaustive: every (orientation, interval kind)^2 E line (7 kinds x 2 or
         "optionally followed by a rename, then taken out (rm/disconnect: all collections empty) and put back; every "
         "L orientation pair (two segments / self-link) with a path over the link in all 24 arrival orders (the link "
         "is a placeholder when the path comes first), then the same cycle; random: graphs with several "
-        "parallel/mixed edges on 3 segments (GFA2, or GFA1 with paths over the links), every 4th "
+        "parallel/mixed edges on 3 segments (GFA2, or GFA1 with paths over the links), about 15% of them forks on 3-4 segments "
+        "(all dovetails of one segment on one end, leading to 2-3 segments which are joined elsewhere or not), every 4th "
         "followed by 1-4 editing steps (edge taken out by rm/disconnect, reference fields changed, put back by "
         "add_line/connect or as a fresh line; edge removed; edge added, a link also after a path which needs it; "
         "segment renamed) with the comparison after "
-        "every step. Collections (texts and identity of the listed lines), derived answers (neighbours, containers, contained, connectivity, other-end) and "
+        "every step. Collections (texts and identity of the listed lines), derived answers (neighbours, containers, contained "
+        "with one entry per listed line, connectivity, other-end), the connectivity of the graph over the dovetails "
+        "(connected_components, segment_connected_component, is_cut_segment of every segment against a union-find) and "
         "edge classification are compared for every segment and edge. Non-trivial: every case with at least one "
         "edge (all of them); distinct by case hash.")
 ASSUMPTIONS = ["segments of length 0 are outside the theorem (ValidIv needs n>0): run on the real library only"]
 TRUSTED = ["GfaModel/Geometry.lean hand-written; tied by T3 translation of _substring_type and T2 tables over complete domains"]
 
-LEN = {"A": 10, "B": 8, "C": 6}
+LEN = {"A": 10, "B": 8, "C": 6, "D": 12}      # D only in the fork graphs with four segments
 
 
 def kinds(n):
@@ -184,10 +203,70 @@ def _rand_edge(rng):
     return [rt, a, rng.choice("+-"), rng.randrange(7), b, rng.choice("+-"), rng.randrange(7)]
 
 
+def _dovetail_on(rng, v1, hub, end, other):
+    """a random dovetail line (GFA1: L; GFA2: E, chosen with the geometric rule) between hub and other (either may be
+    written first) which attaches to the end `end` of hub"""
+    while True:
+        a, b = (hub, other) if rng.random() < 0.5 else (other, hub)
+        spec = ["L" if v1 else "E", a, rng.choice("+-"), rng.randrange(7), b, rng.choice("+-"), rng.randrange(7)]
+        txt, filing, typ, frm = edge_line(*spec)
+        if typ == "L" and (hub, "dovetails_" + end) in filing and (hub, "dovetails_" + INV_END[end]) not in filing:
+            return spec
+
+
+def _fork_edges(rng, v1, segs):
+    """a fork: all the dovetails of the segment `hub` attach to ONE of its ends (the other end is a dead end:
+    connectivity (0, M) / (M, 0)) and lead to 2-3 other segments (`branches`; parallel lines to the same branch
+    now and then); the branches are joined to each other by further dovetails or not (the hub is a cut segment iff
+    some branch is reached through the hub only); lines of the other kinds (containments, internal alignments, gaps:
+    no connection) come on top, also between the hub and its branches"""
+    others = list(segs); rng.shuffle(others)
+    hub = others.pop()
+    end = rng.choice("LR")
+    branches = others[:rng.randint(2, len(others))]
+    edges = []
+    for b in branches:
+        for _ in range(rng.choice([1, 1, 1, 2])):
+            edges.append(_dovetail_on(rng, v1, hub, end, b))
+    r = rng.random()
+    if r < 0.45:                           # some of the branches joined to each other, on any of their ends
+        for _ in range(rng.randint(1, 2)):
+            x, y = rng.sample(others, 2)
+            edges.append(_dovetail_on(rng, v1, x, rng.choice("LR"), y))
+    elif r < 0.55:                         # a hairpin on the busy end of the hub / a loop on a branch
+        k = 4 if end == "R" else 1         # (GFA2) suffix / prefix of the hub, once as it is and once reversed
+        edges.append(["L" if v1 else "E"] + ([hub, "+" if end == "R" else "-", k, hub, "-" if end == "R" else "+", k]
+                                            if rng.random() < 0.5 else [branches[0], "+", 4, branches[0], "+", 1]))
+    for _ in range(rng.randint(0, 2)):     # no connection: containment, internal alignment, gap
+        e = _rand_edge(rng)
+        e[1], e[4] = rng.choice(segs), rng.choice(segs)
+        e[0] = "C" if v1 else rng.choice("EEG")
+        if e[0] != "E" or edge_line(*e)[2] != "L":
+            edges.append(e)
+    rng.shuffle(edges)
+    return edges
+
+
+INV_END = {"L": "R", "R": "L"}
+
+
 def gen_case(rng, tier, i):
-    edges = [_rand_edge(rng) for _ in range(rng.randint(2, 6))]
+    fork = rng.random() < 0.15
+    if fork:
+        segs = rng.choice(["ABC", "ABCD"])
+        v1 = rng.random() < 0.4
+        edges = _fork_edges(rng, v1, segs)
+    else:
+        edges = [_rand_edge(rng) for _ in range(rng.randint(2, 6))]
     case = {"kind": "multi", "edges": edges, "shuffle": rng.randrange(10 ** 6)}
-    if rng.random() < 0.35:                # a GFA1 graph (L and C lines only), with paths over some of its links
+    if fork:
+        case["shape"] = "fork"
+        if segs != "ABC":
+            case["segs"] = segs
+        if v1:
+            links = [j for j, e in enumerate(edges) if e[0] == "L"]
+            case["paths"] = [[rng.choice(links), rng.choice(["fwd", "rev"])] for _ in range(rng.choice([0, 0, 1]))]
+    elif rng.random() < 0.35:              # a GFA1 graph (L and C lines only), with paths over some of its links
         for e in edges:
             if e[0] in "EG":
                 e[0] = rng.choice("LLC")
@@ -241,6 +320,8 @@ def tags(case):
     if case["kind"] == "single":
         return ["single:" + case["rt"], "self" if case["second"] == "A" else "pair"] + (["path"] if case.get("path") else [])
     t = [case["kind"], "n%d" % len(case["edges"]), "gfa%d" % _version(case)]
+    if case.get("shape"):
+        t.append(case["shape"]); t.append("segs%d" % len(case.get("segs", "ABC")))
     if case.get("paths"):
         t.append("paths")
     for st in case.get("steps", []):
@@ -367,7 +448,7 @@ def build(case):
         edges = [{"spec": spec, "idx": None, "txt": txt}]
     else:
         edges = []
-        lines = [seg_line(n, v) for n in "ABC"]
+        lines = [seg_line(n, v) for n in case.get("segs", "ABC")]
         for i, e in enumerate(case["edges"]):
             spec = list(e)
             if v == 2 and spec[0] in "LC":
@@ -388,20 +469,34 @@ def build(case):
     return g, edges, order
 
 
-def compare(g, edges, nm, ctx):
+def compare(g, edges, nm, ctx, graph=True):
     """the whole comparison for the graph g whose edge lines are `edges` (dicts with the CURRENT spec) and whose
-    segments A, B, C are currently called nm[...]"""
+    segments A, B, C are currently called nm[...]; graph=False: without the questions about the connectivity of the
+    whole graph (components, cut segments)"""
     gfapy = lib.import_gfapy()
     F = []
     inv = {v: k for k, v in nm.items()}
     exp = {}                      # (original segment name, collection) -> [(text, other segment's original name)]
+    expn = {}                     # the same attachments as (number of the edge line, other segment's original name)
     info = []
-    for e in edges:
+    for n, e in enumerate(edges):
         txt, filing, typ, frm = edge_line(*e["spec"], idx=e["idx"], nm=nm)
         a, b = e["spec"][1], e["spec"][4]
         info.append((e, txt, filing, typ, frm))
         exp.setdefault((a, filing[0][1]), []).append((txt, b))
         exp.setdefault((b, filing[1][1]), []).append((txt, a))
+        expn.setdefault((a, filing[0][1]), []).append((n, b))
+        expn.setdefault((b, filing[1][1]), []).append((n, a))
+
+    def per_line(o, ks):
+        """one segment for each LINE listed in the collections ks of o: a line which is attached twice (hairpin: one
+        end twice; loop: both ends) is still one line"""
+        seen, out = set(), []
+        for k in ks:
+            for n, x in expn.get((o, k), []):
+                if n not in seen:
+                    seen.add(n); out.append(nm[x])
+        return sorted(out)
     segs = list(g.segments)
     if sorted(str(s.name) for s in segs) != sorted(nm.values()):
         return ["segments-wrong: %r expected %r (%s)" % (sorted(str(s.name) for s in segs), sorted(nm.values()), ctx)]
@@ -431,23 +526,36 @@ def compare(g, edges, nm, ctx):
                 F.append("derived-collection-wrong: %s.%s has %r expected %r (%s)" % (s.name, label, got, want, ctx))
         nL = set(nm[x] for _, x in exp.get((o, "dovetails_L"), []))
         nR = set(nm[x] for _, x in exp.get((o, "dovetails_R"), []))
-        for ask, label, want in ((lambda: s.neighbours_L, "neighbours_L", nL), (lambda: s.neighbours_R, "neighbours_R", nR),
-                                 (lambda: s.neighbours_of_end("L"), "neighbours_of_end(L)", nL),
-                                 (lambda: s.neighbours_of_end("R"), "neighbours_of_end(R)", nR),
-                                 (lambda: s.neighbours, "neighbours", nL | nR),
-                                 (lambda: s.containers, "containers", set(nm[x] for _, x in exp.get((o, "edges_to_containers"), []))),
-                                 (lambda: s.contained, "contained", set(nm[x] for _, x in exp.get((o, "edges_to_contained"), [])))):
+        for ask, label, want, ks in (
+                (lambda: s.neighbours_L, "neighbours_L", nL, ["dovetails_L"]),
+                (lambda: s.neighbours_R, "neighbours_R", nR, ["dovetails_R"]),
+                (lambda: s.neighbours_of_end("L"), "neighbours_of_end(L)", nL, ["dovetails_L"]),
+                (lambda: s.neighbours_of_end("R"), "neighbours_of_end(R)", nR, ["dovetails_R"]),
+                (lambda: s.neighbours, "neighbours", nL | nR, ["dovetails_L", "dovetails_R"]),
+                (lambda: s.containers, "containers", set(nm[x] for _, x in exp.get((o, "edges_to_containers"), [])),
+                 ["edges_to_containers"]),
+                (lambda: s.contained, "contained", set(nm[x] for _, x in exp.get((o, "edges_to_contained"), [])),
+                 ["edges_to_contained"])):
             got = ask()
+            fam = "neighbours" if label.startswith("neigh") else "containers"
             if not all(isinstance(x, gfapy.Line) and x.gfa is g for x in got) or set(str(x.name) for x in got) != want:
                 F.append("%s-wrong: %s.%s is %r expected %r (%s)" % (
-                    "neighbours" if label.startswith("neigh") else "containers", s.name, label,
-                    sorted(str(getattr(x, "name", x)) for x in got), sorted(want), ctx))
+                    fam, s.name, label, sorted(str(getattr(x, "name", x)) for x in got), sorted(want), ctx))
+            elif sorted(str(x.name) for x in got) != per_line(o, ks):
+                # the right segments, but not one entry for each line of the collection(s)
+                F.append("%s-count-wrong: %s.%s is %r expected %r: one entry for each of the %d line(s) listed in %s (a line "
+                         "attached twice to the segment is one line) (%s)" % (
+                             fam, s.name, label, sorted(str(x.name) for x in got), per_line(o, ks), len(per_line(o, ks)),
+                             " + ".join(ks), ctx))
         nl, nr = len(exp.get((o, "dovetails_L"), [])), len(exp.get((o, "dovetails_R"), []))
         want = tuple("M" if n > 1 else n for n in (nl, nr))
         r = lib.outcome(s._connectivity)
         if r[0] != "ok" or tuple(r[1]) != want:
             F.append("connectivity-wrong: %s has %r, the lines attach %d time(s) to its left and %d time(s) to its right "
                      "end: expected %r (%s)" % (s.name, r[1], nl, nr, want, ctx))
+    # ---------------------------------------------------------------- connectivity of the graph (dovetails only)
+    if graph:
+        F.extend(_graph_connectivity(g, segs, inv, nm, info, expn, ctx))
     # ---------------------------------------------------------------- per edge
     by_text = {}
     for l in g.lines:
@@ -494,6 +602,62 @@ def compare(g, edges, nm, ctx):
     return F
 
 
+def _parts(nodes, links, without=None):
+    """the connected parts of the segments `nodes` joined by `links` [(a, b)], the segment `without` taken away"""
+    nodes = [x for x in nodes if x != without]
+    root = {x: x for x in nodes}
+
+    def find(x):
+        while root[x] != x:
+            x = root[x]
+        return x
+    for a, b in links:
+        if a in root and b in root:
+            ra, rb = find(a), find(b)
+            if ra != rb:
+                root[ra] = rb
+    parts = {}
+    for x in nodes:
+        parts.setdefault(find(x), set()).add(x)
+    return sorted((sorted(p) for p in parts.values()))
+
+
+def _graph_connectivity(g, segs, inv, nm, info, expn, ctx):
+    """the connectivity answers of the graph which follow from the dovetail collections: two segments are connected
+    iff a chain of dovetail lines leads from one to the other (ends and orientations do not matter: the walk may
+    leave a segment through either end); Gfa.connected_components() is that partition, segment_connected_component(s)
+    the part of s (asked for one segment), and is_cut_segment(s) (asked for every segment, given as line or as name)
+    tells whether taking s away leaves the rest of its part in two or more parts"""
+    F = []
+    nodes = sorted(nm)
+    links = [(e["spec"][1], e["spec"][4]) for e, txt, filing, typ, frm in info if typ == "L"]
+    whole_parts = _parts(nodes, links)
+    want_cc = sorted(sorted(nm[x] for x in p) for p in whole_parts)
+    r = lib.outcome(lambda: sorted(sorted(str(x.name) for x in c) for c in g.connected_components()))
+    if r[0] != "ok" or r[1] != want_cc:
+        F.append("components-wrong: connected_components() is %r, the dovetail lines %r join the segments into %r (%s)" % (
+            r[1], sorted(txt for e, txt, filing, typ, frm in info if typ == "L"), want_cc, ctx))
+    for j, s in enumerate(segs):
+        o = inv[str(s.name)]
+        mine = [p for p in whole_parts if o in p][0]
+        if j == len(info) % len(segs):     # one segment of the graph, a different one from graph to graph
+            r = lib.outcome(lambda: sorted(str(x.name) for x in g.segment_connected_component(s)))
+            if r[0] != "ok" or r[1] != sorted(nm[x] for x in mine):
+                F.append("components-wrong: segment_connected_component(%s) is %r expected %r (%s)" % (
+                    s.name, r[1], sorted(nm[x] for x in mine), ctx))
+        rest = _parts(mine, links, without=o)
+        want = len(rest) > 1
+        how, arg = (("segment", s), ("name", str(s.name)))[(j + len(info)) % 2]
+        r = lib.outcome(lambda: g.is_cut_segment(arg))
+        if r[0] != "ok" or r[1] is not want:
+            att = dict((k[-1], sorted(nm[x] for _, x in expn.get((o, k), []))) for k in ("dovetails_L", "dovetails_R"))
+            F.append("cut-segment-wrong: is_cut_segment(%s, given as %s) is %r expected %r: the dovetails attach %r to "
+                     "its left and %r to its right end (connectivity %r); without %s the rest of its component is %r "
+                     "(%s)" % (s.name, how, r[1], want, att["L"], att["R"], lib.outcome(s._connectivity)[1], s.name,
+                               [[nm[x] for x in p] for p in rest], ctx))
+    return F
+
+
 def _set_fields(gfapy, ln, old_txt, new_txt, how):
     """change the reference fields of the (disconnected) edge line so that it reads new_txt"""
     fo, fn = old_txt.split("\t"), new_txt.split("\t")
@@ -536,7 +700,7 @@ def single_cycle(g, e, nm, cycle, order):
             ln.disconnect()
     except gfapy.Error:
         return []         # a refused step: not this property's business
-    F = compare(g, [], nm, ctx)
+    F = compare(g, [], nm, ctx, graph=False)
     if F:
         return F
     ctx += ", put back (%s)" % back
@@ -549,7 +713,7 @@ def single_cycle(g, e, nm, cycle, order):
             ln.connect(g)
     except gfapy.Error:
         return []
-    return compare(g, [e], nm, ctx)
+    return compare(g, [e], nm, ctx, graph=False)
 
 
 def oracle(case):
@@ -561,7 +725,7 @@ def oracle(case):
         if case["kind"] != "single":
             return F  # e.g. duplicate link in random multi graph: not this property's business
         return ["build-raises: %s %s" % (e.__class__.__name__, case)]
-    nm = {"A": "A", "B": "B", "C": "C"}
+    nm = {n: n for n in case.get("segs", "ABC")}
     if case["kind"] == "single":
         nm = {n: n for n in sorted({"A", case["second"]})}
     if case.get("rename"):
